@@ -3,6 +3,7 @@ package main
 // Rendering of Go-side values as Coq terms of the model (Csvq.Model.Value), and the string oracles.
 
 import (
+	"math/big"
 	"fmt"
 	"math"
 	"strconv"
@@ -94,12 +95,9 @@ func coqSinfo(s string) string {
 		of = "(Some " + coqFloat(f) + ")"
 	}
 	dt, okd := value.StrToTime(s, nil, utc)
-	var nanos int64
+	nanos := "None"
 	if okd {
-		nanos = dt.UnixNano()
-		if y := dt.Year(); y < 1700 || y > 2250 { // UnixNano undefined outside int64 range
-			okd = false
-		}
+		nanos = "(Some " + coqNanos(dt) + ")"
 	}
 	b, eb := strconv.ParseBool(t)
 	ob := "None"
@@ -107,10 +105,19 @@ func coqSinfo(s string) string {
 		ob = "(Some " + coqBool(b) + ")"
 	}
 	return fmt.Sprintf("(mkS %s %s %s %s %s %s %s)", coqStr(s), coqStr(t), coqStr(strings.ToUpper(t)),
-		coqOptZ(ei == nil, i), of, coqOptZ(okd, nanos), ob)
+		coqOptZ(ei == nil, i), of, nanos, ob)
 }
 
-// dtUnsafe reports strings whose datetime reading is outside the range the model represents
+// coqNanos: the instant as nanoseconds since the epoch, exactly (time.UnixNano is only defined for years
+// 1678..2261; the model compares datetimes as unbounded integers, as time.Time.Before / Equal do)
+func coqNanos(t time.Time) string {
+	n := new(big.Int).Mul(big.NewInt(t.Unix()), big.NewInt(1000000000))
+	n.Add(n, big.NewInt(int64(t.Nanosecond())))
+	return "(" + n.String() + ")%Z"
+}
+
+// dtUnsafe reports strings whose datetime reading is outside the range in which csvq's SORT values are right
+// (finding datetime-sort-beyond-int64-nanos): generators of sorted / bucketed columns leave them out
 func dtUnsafe(s string) bool {
 	dt, ok := value.StrToTime(s, nil, utc)
 	if !ok {
@@ -133,7 +140,7 @@ func coqVal(p value.Primary) string {
 	case *value.Ternary:
 		return "(VTern " + coqTern(v.Ternary()) + ")"
 	case *value.Datetime:
-		return "(VDt " + coqZ(v.Raw().UnixNano()) + ")"
+		return "(VDt " + coqNanos(v.Raw()) + ")"
 	case *value.String:
 		return "(VStr " + coqSinfo(v.Raw()) + ")"
 	}
